@@ -4,6 +4,7 @@ R20.1 every mutating file-system effect reachable from migrate_to_parameter_mode
 chain / target dir, none derived from the old chain;  R20.2 copies are src=old, dst=new, copies (not moves), and
 control-dependent on not dry, old has data, new has no data;  R20.3 the rebuilt config receives path AND part, global
 vars and context;  R20.4 pairing by full name, inspection through has_data (nothing runs).
+R20.4 pairing by the names the tasks are registered under (not by task.fullname);  R20.9 also: the source size is read only after the presence of the source was established / evaluated.
 """
 from __future__ import annotations
 
